@@ -23,10 +23,16 @@ with ≈ as `Spec/Perm.lean` says.  Proved here:
   write_qua_perm           the Quaver writer: both written documents denote (by the book) the same chart up to
                            row order                               hyp: those of C06's `qua_write_denotes`
 
-Not proved here (see manifest.d/C15.json): converters (follows from C08's content theorem up to the projection
-lemma, not closed), the osu / StepMania / BMS writers (their models are not yet composed with `Perm`).
+  convert_one_perm         the 17 converter entry points, one pass of the body: sources with the same hits / holds /
+                           tempo points up to row order (stated over the rows projected on the carried columns, any
+                           labels) give charts with the same hits / holds / tempo points up to row order
+
+Not proved here (see manifest.d/C15.json): that a row permutation of a column-oriented frame induces `SrcKeyPerm`
+(the projection lemma), the SV list and the loop shapes of the converters, the osu / StepMania / BMS writers (their
+models are not yet composed with `Perm`).
 -/
 import Reamber.Lemmas.PermInv
+import Reamber.Lemmas.PermInvConvert
 import Reamber.Props.C13
 import Reamber.Props.C17
 import Reamber.Props.C18
@@ -333,6 +339,26 @@ theorem n15a_object_dtype_counterexample :
   by_cases h : hs = 0 <;> simp [h]
 
 end Hitsound
+
+/-! ## converters -/
+
+section Converters
+open Reamber.Convert
+
+/-- **converters (one pass of the body), all 17 shipped entry points**: two source maps that hold the same hits, holds
+and tempo points up to row order (any row labels) are converted to charts that hold the same hits, holds and tempo
+points up to row order — over the columns the converters carry (time, column, length, bpm; column shifted alike). -/
+theorem convert_one_perm : ∀ c ∈ Generated.converters, ∀ (src src' : Src) (cur cur' : SrcMap) (k : Int) (t t' : TChart),
+    srcMapOk cur = true → srcMapOk cur' = true →
+    convOne tables c src cur k = .ok t → convOne tables c src' cur' k = .ok t' → SrcKeyPerm cur cur' →
+    (∀ rt rt', projRows t.hits keysHits = some rt → projRows t'.hits keysHits = some rt' → rt.Perm rt') ∧
+    (∀ rt rt', projRows t.holds keysHolds = some rt → projRows t'.holds keysHolds = some rt' → rt.Perm rt') ∧
+    (∀ rt rt', projRows t.bpms keysBpms = some rt → projRows t'.bpms keysBpms = some rt' → rt.Perm rt') := by
+  intro c hc src src' cur cur' k t t' hok hok' h h' hrel
+  exact contentOk_perm (convOne_content tables c src cur k t (table_static_ok c hc) hok h)
+    (convOne_content tables c src' cur' k t' (table_static_ok c hc) hok' h') hrel
+
+end Converters
 
 /-! ## the Quaver writer -/
 
